@@ -207,7 +207,11 @@ def str_script_digests(seed):
             ops.apply(m, ["remove_arm", "b"])
             ops.apply(m, ["partial_fit", ["d", "a"], [1, 0], None if cf else [x[1], x[2]]])
             if nn == "none":
-                ops.apply(m, ["warm_start", [[a, [1, i % 2]] for i, a in enumerate(m.arms)], 1.0])
+                # 'e' is cold and exactly as far from 'a' as from 'c' and 'd' (identical feature vectors): which
+                # trained arm it is initialised from must not depend on set / dict iteration order
+                ops.apply(m, ["add_arm", "e"])
+                ops.apply(m, ["warm_start", [[a, [0, 1]] for a in m.arms], 1.0])
+                res.append(ops.norm(list(m.cold_arms)))
             res.append(ops.call(m, "predict_expectations", None if cf else q))
             res.append(ops.call(m, "predict", None if cf else q[:1]))
         except Exception as e:                                # noqa: BLE001
